@@ -82,7 +82,26 @@ class Runner:
         _COUNTER[0] += 1
         tag = _COUNTER[0]
         target_by_name = None
-        if name == "put":
+        if name == "put" and tag % 3 == 1:
+            # Model.put with a source pin and a target: placed AND connected in the active solver
+            a = uwg(tag).put()
+            b = uwg(f"{tag}x").put(f"a{tag}x", (a, f"b{tag}"))
+            act = lk.sol_list[-1]
+            if b not in act.structures or (b, Pin(f"a{tag}x")) not in act.connections_list:
+                self.misdirected = True
+        elif name == "put" and tag % 3 == 2:
+            # Solver.put with a source pin given by NAME and a target
+            sub = lk.Solver(name=f"psub{tag}")
+            wst = lk.Structure(model=uwg(f"{tag}x"))
+            sub.add_structure(wst)
+            sub.map_pins({f"sa{tag}": wst.pin[f"a{tag}x"], f"sb{tag}": wst.pin[f"b{tag}x"]})
+            a = uwg(tag).put()
+            b = sub.put(f"sa{tag}", (a, f"b{tag}"))
+            act = lk.sol_list[-1]
+            if (b not in act.structures or (b, Pin(f"sa{tag}")) not in act.connections_list
+                    or len(sub.structures) != 1 or sub.connections):
+                self.misdirected = True
+        elif name == "put":
             uwg(tag).put()
         elif name == "putpin":
             st = uwg(tag).put()
